@@ -68,6 +68,10 @@ func execReq(n *Node, rb *reqBlock, preCommit func(), postCommit func()) *BlockR
 	if !n.guard("BeginBlock", func() { n.App.BeginBlock(rb.Begin) }) {
 		return fail()
 	}
+	if f := n.afterBeginOnce; f != nil {
+		n.afterBeginOnce = nil
+		f()
+	}
 	for _, tx := range rb.Txs {
 		var r abci.ResponseDeliverTx
 		if !n.guard("DeliverTx", func() { r = n.App.DeliverTx(abci.RequestDeliverTx{Tx: tx}) }) {
@@ -349,6 +353,22 @@ type c10Run struct {
 	S      *Stores
 	Export string
 	InitOp []*big.Int
+	// root hash of the state tree committed by InitChain
+	GenesisRoot string
+}
+
+// c10LoadedRoot: root hash of the state tree a node has loaded (last saved version it opened)
+func c10LoadedRoot(n *Node) (root string) {
+	defer func() {
+		if r := recover(); r != nil {
+			root = fmt.Sprintf("panic: %v", r)
+		}
+	}()
+	sd := n.App.VerifStateDeliver()
+	if sd == nil {
+		return "no state"
+	}
+	return fmt.Sprintf("%x", sd.Tree().GetLastImmutable().Hash())
 }
 
 // c10Straight executes the plan on wrapped stores; for the block indexes in [targets] it
@@ -361,6 +381,7 @@ func c10Straight(p *c10Plan, targets map[int]bool, hashes, keys *interner) *c10R
 	n := nodeOn(S, tmplNode, p.Keep)
 	n.initChain(st, InitialHeight)
 	run := &c10Run{Node: n, S: S}
+	run.GenesisRoot = c10LoadedRoot(n)
 	run.InitOp = L(Z(0), Z(InitialHeight-1), Z(p.Keep), Z(hashes.id("genesis")), Z(0))
 	for bi_, rb := range p.H.Blocks {
 		b := rb
@@ -561,6 +582,28 @@ func runC10(seed uint64, n int, out, stats string, args []string) {
 					fail("c10-info-not-replayable", fmt.Sprintf("Info reports height %d after a crash while committing %d", info.LastBlockHeight, hgt))
 					R.Cleanup()
 					continue
+				}
+				// the state the recovered node has loaded is the state committed for the height it reports
+				// (for the height before the first block: the genesis state committed by InitChain); read after the
+				// first BeginBlock, which is where a node restarted before its first Commit opens its state
+				if info.LastBlockHeight == hgt || info.LastBlockHeight == hgt-1 {
+					want := B.Obs.Hash
+					if info.LastBlockHeight == hgt-1 {
+						want = U.GenesisRoot
+						if bidx > 0 {
+							want = U.Blocks[bidx-1].Obs.Hash
+						}
+					}
+					reported := info.LastBlockHeight
+					R.afterBeginOnce = func() {
+						if got := c10LoadedRoot(R); got != want {
+							key := "c10-loaded-state-is-not-the-committed-state"
+							seenKey[key]++
+							if seenKey[key] <= 3 {
+								mon = append(mon, MonitorFailure{What: fmt.Sprintf("C10: after the crash the node reports height %d but the state tree it has loaded has root %s; the state committed for that height has root %s", reported, got, want), Key: key, Replay: where})
+							}
+						}
+					}
 				}
 				// model case: prefix of the history, the crash, the recovered node's commits
 				c.Begin(c10Model)
